@@ -134,6 +134,13 @@ class Ctx:
         if len(self.samples) < limit:
             self.samples.append(jsonable(desc))
 
+    def stat_max(self, name, value):
+        """Track the maximum of a margin statistic (e.g. error/tolerance) for the evidence file."""
+        k = "max:" + name
+        v = float(value)
+        if v == v and v > self.notes.get(k, float("-inf")):
+            self.notes[k] = v
+
     def note(self, key, value):
         self.notes[key] = jsonable(value)
 
@@ -265,6 +272,8 @@ class Ctx:
                 for r in v:
                     if r not in cur:
                         cur.append(r)
+            elif k.startswith("max:") and isinstance(v, (int, float)):
+                self.notes[k] = max(self.notes.get(k, float("-inf")), v)
             elif k.startswith("sum:") and isinstance(v, (int, float)):
                 self.notes[k] = self.notes.get(k, 0) + v
             elif k.startswith("set:") and isinstance(v, list):
